@@ -360,6 +360,8 @@ def more_cases(case: Case, rng):
 
 def nontrivial(case: Case, out: list[str]) -> bool:
     """full and empty both reached, a read and a write executed in the same cycle, and a pointer wrapped"""
+    if out[0] != "ok":
+        return False
     full = any(" rdy=110" in o for o in out[1:])
     nonempty_then_empty = any(" rdy=001" in o for o in out[2:])
     both = any(not o.startswith("r=- ") and " w=1 " in o for o in out[1:])
@@ -367,6 +369,211 @@ def nontrivial(case: Case, out: list[str]) -> bool:
     cols = [int(o.split(" ri=")[1].split(" ")[0].split(".")[1]) for o in out[1:]]
     wrapped = any(a > b for a, b in zip(rows, rows[1:])) or any(a > b for a, b in zip(cols, cols[1:]))
     return full and nonempty_then_empty and both and wrapped
+
+
+# ------------------------------------------------------------------------------------------ two callers per method
+# `read` and `write` are exclusive methods: of two transactions calling them in the same cycle at most one may
+# execute (a method accidentally declared nonexclusive would let both through, invisibly to a single caller).
+_msims: dict[tuple, object] = {}
+
+
+def _msim(depth: int, rw: int, ww: int, mx: int, dw: int):
+    """the real WideFifo inside a wrapper that exposes read / peek / write twice (two AdapterTrans, i.e. two
+    independent transactions, on the same real method), plus the static order of the two callers as probed on
+    the real scheduler"""
+    key = (depth, rw, ww, mx, dw)
+    if key not in _msims:
+        from amaranth import Elaboratable
+        from transactron import TModule
+        from transactron.lib.fifo import WideFifo
+
+        class TwoCallers(Elaboratable):
+            def __init__(self):
+                self.inner = inner = WideFifo(dw, depth, rw, ww, write_max_count=bool(mx))
+                self.read = [inner.read] * 2
+                self.peek = [inner.peek] * 2
+                self.write = [inner.write] * 2
+                self.clear = inner.clear
+
+            def elaborate(self, platform):
+                m = TModule()
+                m.submodules.inner = self.inner
+                return m
+
+        sim = CompSim(TwoCallers)
+        warg = {"count": min(1, ww), "data": [1] * ww, **({"max_count": min(1, ww)} if mx else {})}
+        tr = sim.run([{"write[0]": warg, "write[1]": warg}, {"read[0]": {"count": 0}, "read[1]": {"count": 0}}])
+        sim.wo = 1 if (tr[0][("write", 1)] is not None and tr[0][("write", 0)] is None) else 0
+        sim.ro = 1 if (tr[1][("read", 1)] is not None and tr[1][("read", 0)] is None) else 0
+        _msims[key] = sim
+    return _msims[key]
+
+
+def _parse_mop(op: str) -> dict:
+    t = dict(x.split("=") for x in op.split()[1:])
+
+    def w(v):
+        if v == "-":
+            return None
+        a, b, d = v.split(":")
+        return (int(a), int(b), _ints(d))
+
+    return {
+        "r": [None if v == "-" else int(v) for v in t["r"].split("/")],
+        "p": [int(v) for v in t["p"].split("/")],
+        "w": [w(v) for v in t["w"].split("/")],
+        "c": int(t["c"]),
+    }
+
+
+def impl_multi(case: Case) -> list[str]:
+    cfg = _parse_cfg(case.cfg)
+    depth, rw, ww, mx, dw = cfg["depth"], cfg["rw"], cfg["ww"], cfg["max"], cfg["dw"]
+    sim = _msim(depth, rw, ww, mx, dw)
+    ops = []
+    for line in case.ops:
+        o = _parse_mop(line)
+        op: dict = {"clear": 0 if o["c"] else None}
+        for k in (0, 1):
+            op[f"read[{k}]"] = None if o["r"][k] is None else {"count": o["r"][k]}
+            op[f"peek[{k}]"] = 0 if o["p"][k] else None
+            op[f"write[{k}]"] = None
+            if o["w"][k] is not None:
+                cnt, m, d = o["w"][k]
+                op[f"write[{k}]"] = {"count": cnt, "data": d, **({"max_count": m} if mx else {})}
+        ops.append(op)
+    tr = sim.run(
+        ops,
+        extra=lambda d: [d.inner.read.ready, d.inner.peek.ready, d.inner.write.ready, d.inner.read_idx.row, d.inner.read_idx.col,
+                         d.inner.write_idx.row, d.inner.write_idx.col],
+    )
+    out = ["ok"]
+    for r in tr:
+        e = r["_extra"]
+
+        def res(p, k):
+            v = r[(p, k)]
+            if v is None:
+                return "-"
+            cnt, data = _decode(v, rw, dw)
+            return f"{cnt}:{_lst(data)}"
+
+        b = lambda p, k: 0 if r[(p, k)] is None else 1  # noqa: E731
+        out.append(
+            f"r={res('read', 0)}/{res('read', 1)} p={res('peek', 0)}/{res('peek', 1)} w={b('write', 0)}/{b('write', 1)} "
+            f"c={0 if r[('clear',)] is None else 1} rdy={e[0]}{e[1]}{e[2]} ri={e[3]}.{e[4]} wi={e[5]}.{e[6]}"
+        )
+    return out
+
+
+def monitor_multi(case: Case, out: list[str]):
+    """exclusive methods serve at most one caller per cycle, and the property sentence holds on the union of the
+    executed calls (which caller wins is not the property's business)"""
+    cfg = _parse_cfg(case.cfg)
+    depth, rw, mx = cfg["depth"], cfg["rw"], cfg["max"]
+    q: list[int] = []
+
+    def res(v):
+        if v == "-":
+            return None
+        c, d = v.split(":")
+        return int(c), _ints(d)
+
+    for k, (op, o) in enumerate(zip(case.ops, out[1:])):
+        i = _parse_mop(op)
+        f = dict(x.split("=") for x in o.split())
+        fr = [res(v) for v in f["r"].split("/")]
+        fp = [res(v) for v in f["p"].split("/")]
+        fw = [v == "1" for v in f["w"].split("/")]
+        level, remaining = len(q), depth - len(q)
+        want = f"{int(level > 0)}{int(level > 0)}{int(remaining > 0)}"
+        if f["rdy"] != want:
+            return f"cycle {k}: ready bits read/peek/write = {f['rdy']}, queue holds {level} of {depth} (expected {want})"
+        ex = [c for c in (0, 1) if fr[c] is not None]
+        if len(ex) > 1:
+            return f"cycle {k}: both callers of the exclusive method read executed in the same cycle ({fr})"
+        if any(i["r"][c] is None for c in ex):
+            return f"cycle {k}: read executed for a caller that did not call it"
+        if bool(ex) != (any(r is not None for r in i["r"]) and level > 0):
+            return f"cycle {k}: read attempted={i['r']} executed={fr} with {level} elements queued"
+        n = 0
+        if ex:
+            n = min(i["r"][ex[0]], level, rw)
+            cnt, data = fr[ex[0]]
+            if cnt != n or data[:n] != q[:n]:
+                return f"cycle {k}: read({i['r'][ex[0]]}) returned count={cnt} data={data}, the {n} oldest elements are {q[:n]}"
+        for c in (0, 1):
+            if (fp[c] is not None) != (bool(i["p"][c]) and level > 0):
+                return f"cycle {k}: peek caller {c} attempted={i['p'][c]} executed={fp[c]} with {level} elements queued"
+            if fp[c] is not None:
+                m = min(level, rw)
+                cnt, data = fp[c]
+                if cnt != m or data[:m] != q[:m]:
+                    return f"cycle {k}: peek returned count={cnt} data={data}, the {m} oldest elements are {q[:m]}"
+        fits = [w is not None and remaining != 0 and (w[1] if mx else w[0]) <= remaining for w in i["w"]]
+        wx = [c for c in (0, 1) if fw[c]]
+        if len(wx) > 1:
+            return f"cycle {k}: both callers of the exclusive method write executed in the same cycle"
+        if any(not fits[c] for c in wx) or (not wx and any(fits)):
+            return f"cycle {k}: writes {i['w']} executed={fw} with {remaining} free slots (max_count configured: {mx})"
+        if (f["c"] == "1") != bool(i["c"]):
+            return f"cycle {k}: clear attempted={i['c']} executed={f['c']}"
+        q = q[n:]
+        if wx:
+            cnt, m, data = i["w"][wx[0]]
+            q = q + data[:cnt]
+        if f["c"] == "1":
+            q = []
+        if len(q) > depth:
+            return f"cycle {k}: queue would hold {len(q)} > depth {depth} elements"
+    return None
+
+
+def _mk_multi(cfgt, n, rng, regime) -> Case:
+    depth, rw, ww, mx, dw = cfgt
+    sim = _msim(*cfgt)
+    a = _rand_ops(rng, cfgt, n, *regime)
+    b = _rand_ops(rng, cfgt, n, *regime)
+    lines = []
+    for (r0, p0, w0, c0), (r1, p1, w1, _) in zip(a, b):
+        ws = "/".join("-" if w is None else f"{w[0]}:{w[1]}:{_lst(w[2])}" for w in (w0, w1))
+        rs = "/".join("-" if r is None else str(r) for r in (r0, r1))
+        lines.append(f"mcyc r={rs} p={int(p0)}/{int(p1)} w={ws} c={int(c0)}")
+    return Case(
+        _cfg_line(depth, rw, ww, mx, dw) + f" ro={sim.ro} wo={sim.wo}",
+        lines,
+        {"component": "WideFifo", "callers": 2, "depth": depth, "rw": rw, "ww": ww, "max": mx, "dw": dw, "wellformed": True},
+        "two-callers",
+    )
+
+
+def gen_multi(ctx: Check) -> list[Case]:
+    rng = ctx.rng("multi")
+    shapes = ctx.pick([(2, 1, 1), (4, 2, 2), (6, 2, 3), (6, 3, 2)], [(1, 1, 1), (2, 1, 1), (4, 2, 2), (6, 2, 3), (6, 3, 2), (8, 4, 4), (9, 3, 1), (10, 2, 5)])
+    out = []
+    for k, (depth, rw, ww) in enumerate(shapes):
+        for mx in ((k + ctx.seed) % 2,) if ctx.quick else (0, 1):
+            cfgt = (depth, rw, ww, mx, 6)
+            for j in range(ctx.pick(2, 4)):
+                out.append(_mk_multi(cfgt, ctx.pick(60, 200), rng, [(0.8, 0.5, 0.8, 0.02), (1.0, 1.0, 1.0, 0.0), (0.5, 0.5, 0.9, 0.02), (0.9, 0.5, 0.4, 0.02)][j]))
+    return out
+
+
+def more_multi(case: Case, rng):
+    d = case.desc
+    cfgt = (d["depth"], d["rw"], d["ww"], d["max"], d.get("dw", 6))
+    for k in range(10):
+        yield _mk_multi(cfgt, 100, rng, (0.8, 0.5, 0.8, 0.02))
+
+
+def nontrivial_multi(case: Case, out: list[str]) -> bool:
+    """both callers of read and both callers of write attempted in some cycle where the method could run"""
+    both_r = both_w = False
+    for op, o in zip(case.ops, out[1:]):
+        i = _parse_mop(op)
+        both_r |= all(r is not None for r in i["r"]) and " rdy=11" in o
+        both_w |= all(w is not None for w in i["w"]) and o.split(" rdy=")[1][2] == "1"
+    return both_r and both_w
 
 
 def load_corpus() -> list[Case]:
@@ -395,6 +602,9 @@ def run(ctx: Check):
     lockstep(ctx, "widefifo", "C15", cases, impl, monitor, more_cases, nontrivial, procs=procs)
     ctx.count("configurations", len({c.cfg for c in cases}))
     ctx.count("cycles_wellformed", sum(len(c.ops) for c in cases))
+    # two callers per method: exclusivity of read/write, property on the union of executed calls (procs=1: the
+    # static caller order probed in this process is part of the cfg line)
+    lockstep(ctx, "widefifo-two-callers", "C15", gen_multi(ctx), impl_multi, monitor_multi, more_multi, nontrivial_multi, procs=1)
     if ctx.violations:
         return  # the model-only comparisons below would only repeat the alarm without a failing input
     # outside the environment hypotheses (count > write_width, count > max_count): model vs. code, no property claim
@@ -412,4 +622,6 @@ def run(ctx: Check):
 def replay(ctx: Check, body: dict):
     from ..lockstep import replay_case
 
+    if body.get("desc", {}).get("callers") == 2:
+        return replay_case(body, impl_multi, monitor_multi)
     return replay_case(body, impl, monitor)
